@@ -1,5 +1,6 @@
 import Driver.Util
 import Driver.Mac
+import Driver.Hist
 import Driver.Dev
 import Driver.Nb
 /-! Suite C06: MAC-level histories (see Driver/Mac.lean). The model's run satisfies the C06
@@ -8,7 +9,9 @@ namespace Driver.C06
 
 def handle (ws : List String) : String :=
   match ws with
-  | "mac" :: rest => s!"{Driver.Mac.run rest} ## oracle=ok|-"
+  -- `Driver.Hist.run`: the same answer, poisoned if `Model.step` (Model/History.lean) disagrees with the runner
+  | "mac" :: rest => s!"{Driver.Hist.run rest} ## oracle=ok|-"
+  | "machist" :: rest => let (c, a) := Driver.Hist.stats rest; s!"checked={c} agreed={a} kinds={Driver.Hist.kindStats rest}"
   | "nbdev" :: rest => s!"{Driver.Nb.run rest} ## oracle=ok|-"
   | "adev" :: rest => s!"{Driver.Dev.run rest} ## oracle=ok|-"
   | _ => "bad-op"
